@@ -129,6 +129,10 @@ def check(ctx, rep):
     # quiescence (shared with C01 R01.e)
     rep.rule('R05.g', 'both executor loops read both queues and return only after finding them empty again once any task has run', floor=5)
     c01.check_executor_loops(rep, core, rid='R05.g')
+    # R05.i: an event a hosted command emits is fed back to update by the same call, as it would be seen at once when the command is
+    # inspected directly: every run of the executor in Core::process is followed by a look at the event channel (shared with C03 R03.f /
+    # C01 R01.a; seeded: the run_all inside the event loop moved after the loop, so a two-hop event chain arrives one call late)
+    c03.check_process_looks(rep, 'R05.i', core)
     # R05.h: driven through the serialized bridge, a response reaches the same request as under the typed core: resume() looks the entry up
     # under the id it was given, resolves exactly that entry and removes it only when it can no longer be resolved, all inside one region of
     # the registry lock (an entry taken out while it is resolved lets another thread's new effect be announced under the same id), and ids
